@@ -304,8 +304,90 @@ def clause_kind(clause):
 
 def result_base(w, **extra):
     d = {"digest": w.digest(), "counters": dict(w.counters), "faults": dict(w.fault_fired), "first_events": first_events(w)}
+    if w.knobs.get("optrace"):
+        d["optrace"] = {"fs": list(w.op_trace["fs"]), "peer": list(w.op_trace["peer"]), "stdout": w.stdout.nchars}
     d.update(extra)
     return d
+
+
+# ---------------------------------------------------------------------------
+# exhaustive fault placement over one workload (DESIGN.md 3.5, last paragraph)
+
+FS_FAULTS_FOR = {"write": [("fs.enospc", 0.0), ("fs.enospc", 0.5), ("fs.eacces", 0.0)], "append": [("fs.enospc", 0.0), ("fs.enospc", 0.6)],
+                 "read": [("fs.eio", 0.0), ("fs.vanish", 0.0)]}
+
+
+def sweep_placements(optrace, kinds, rng, cap=160, max_addclause=4, epipe_points=6):
+    """All (operation index x applicable fault kind) placements for one recorded fault-free execution.  Peer faults go on
+    every solve/sample operation and on a few add_clause operations (first, last, some in between); stdout EPIPE at a few
+    character offsets spread over what the run printed."""
+    out = []
+    for i, k in enumerate(optrace["fs"]):
+        for kind, arg in FS_FAULTS_FOR.get(k, []):
+            if kind in kinds:
+                out.append({"kind": kind, "at": i, "arg": arg})
+    peer_kinds = [k for k in ("peer.raise", "peer.unknown", "peer.memory") if k in kinds]
+    adds = [i for i, s in enumerate(optrace["peer"]) if s == "add_clause"]
+    pick = set(adds[:1] + adds[-1:])
+    if len(adds) > 2:
+        pick.update(rng.sample(adds, min(max_addclause, len(adds))))
+    for i, s in enumerate(optrace["peer"]):
+        if s == "add_clause" and i not in pick:
+            continue
+        for kind in peer_kinds:
+            if kind == "peer.unknown" and s == "add_clause":
+                continue
+            out.append({"kind": kind, "at": i})
+    if "stdout.epipe" in kinds and optrace.get("stdout"):
+        n = optrace["stdout"]
+        pts = sorted(set([0, 1, n - 1] + [rng.randrange(n) for _ in range(epipe_points)]))
+        out.extend({"kind": "stdout.epipe", "at": p} for p in pts if 0 <= p < n)
+    if len(out) > cap:
+        out = [out[i] for i in sorted(rng.sample(range(len(out)), cap))]
+    return out
+
+
+def fault_sweep(run_one, case, kinds, seed_name="sweep", cap=160):
+    """Runs `case` fault-free, then once per fault placement.  Returns the fault-free result (with sweep counters) or the
+    first violating run; that result carries `reduced_case` = the plain single-fault case that reproduces it."""
+    from . import world as W_
+    c0 = dict(case)
+    c0["sweep"] = False
+    c0["faults"] = []
+    c0["knobs"] = dict(case["knobs"], optrace=True)
+    r0 = run_one(c0)
+    ot = r0.pop("optrace", None)
+    if r0.get("outcome") != "ok" or ot is None:
+        if r0.get("outcome") == "violation":
+            c1 = dict(c0)
+            c1["knobs"] = dict(case["knobs"])
+            r0["reduced_case"] = c1
+        return r0
+    rng = W_.stream(case["run_seed"], seed_name)
+    placements = sweep_placements(ot, kinds, rng, cap)
+    fired = {}
+    nfired = 0
+    digests = [r0.get("digest") or ""]
+    for p in placements:
+        c = dict(case)
+        c["sweep"] = False
+        c["faults"] = [p]
+        r = run_one(c)
+        digests.append(r.get("digest") or r.get("reason") or "")
+        for k, v in (r.get("faults") or {}).items():
+            fired[k] = fired.get(k, 0) + v
+            nfired += v
+        if r.get("outcome") == "violation":
+            r["reduced_case"] = c
+            r["detail"] = "fault sweep placement %r: %s" % (p, r.get("detail"))
+            return r
+    r0["faults"] = fired
+    r0.setdefault("counters", {})
+    r0["counters"]["sweep.workloads"] = 1
+    r0["counters"]["sweep.placements"] = len(placements)
+    r0["counters"]["sweep.placements_fired"] = nfired
+    r0["digest"] = W_._sha1("|".join(digests))
+    return r0
 
 
 def innermost_frame_info(exc):
@@ -469,3 +551,43 @@ def family_tags(m):
 def with_family(sig, m, extra=()):
     t = [x for x in list(family_tags(m)) + list(extra) if x not in sig]
     return sig + ("/" + ",".join(sorted(set(t))) if t else "")
+
+
+# ---------------------------------------------------------------------------
+# user abort at an arbitrary line of a library call (DESIGN.md 3.5 abort@line)
+
+
+class LineAbort:
+    """Context manager: raises smworld.SimAbort (a KeyboardInterrupt-like BaseException) at the `at`-th traced `line` event
+    inside the sweetpea package.  Not firing (the call has fewer lines) is fine: the fault simply did not land."""
+
+    def __init__(self, w, at, line_cap=3000000):
+        self.w, self.at, self.n, self.fired, self.line_cap = w, at, 0, False, line_cap
+
+    def _local(self, frame, event, arg):
+        if event == "line":
+            self.n += 1
+            if self.at is not None and self.n == self.at:
+                from .smworld import SimAbort
+                self.at = None
+                self.fired = True
+                self.w.fired("abort@line", frame.f_code.co_name)
+                raise SimAbort()
+        return self._local
+
+    def _global(self, frame, event, arg):
+        if "/sweetpea/" in frame.f_code.co_filename:
+            return self._local
+        return None
+
+    def __enter__(self):
+        import sys
+        self._old = sys.gettrace()
+        if self.at is not None:
+            sys.settrace(self._global)
+        return self
+
+    def __exit__(self, *a):
+        import sys
+        sys.settrace(self._old)
+        return False
